@@ -499,6 +499,84 @@ fn server_reads_settings(rep: &mut Report) {
     }
 }
 
+/// DX: two sessions of one process are pushed different schemes at about the same time while one of them has a
+/// writer in the middle of a packet on a narrow transport. Afterwards each session must shape with ITS server's scheme.
+pub fn make_two_pushes(narrow_a: bool) -> crate::ctl::ScenarioFn {
+    scenario(move || async move {
+        let mut out = Outcome::default();
+        let mk = |narrow: bool| {
+            let link = peer_link(PipeCfg::new("s2c"), if narrow { PipeCfg::new("c2s").capacity(16) } else { PipeCfg::new("c2s") });
+            let wire = link.peer.out.clone();
+            let inj = link.peer.inj.clone();
+            let sess = Arc::new(Session::new_client(link.sess_r, link.sess_w, padding(&scheme(150)), None));
+            let s2 = sess.clone();
+            tokio::spawn(async move {
+                let _ = s2.recv_loop().await;
+            });
+            tokio::spawn(link.peer.sink());
+            (sess, wire, inj)
+        };
+        let (a, wire_a, inj_a) = mk(narrow_a);
+        let (b, wire_b, inj_b) = mk(false);
+        let a2 = a.clone();
+        let writer = tokio::spawn(async move {
+            crate::ctl::hpoint("h.c19.writer").await;
+            let mut ok = true;
+            for k in 0..3u8 {
+                ok &= matches!(within(a2.write_data_frame(1, Bytes::from(vec![k; 20]))).await, Some(Ok(())));
+            }
+            ok
+        });
+        let push_a = tokio::spawn(async move {
+            crate::ctl::hpoint("h.c19.push-a").await;
+            inj_a.push(&enc(UPDATE_PADDING, 0, scheme(200).as_bytes()));
+        });
+        let push_b = tokio::spawn(async move {
+            crate::ctl::hpoint("h.c19.push-b").await;
+            inj_b.push(&enc(UPDATE_PADDING, 0, scheme(300).as_bytes()));
+        });
+        let ok = writer.await.unwrap_or(false);
+        let _ = push_a.await;
+        let _ = push_b.await;
+        settle().await;
+        tokio::time::sleep(Duration::from_millis(50)).await;
+        let mut later_ok = true;
+        for k in 0..2u8 {
+            later_ok &= matches!(within(a.write_data_frame(1, Bytes::from(vec![0x50 + k; 20]))).await, Some(Ok(())));
+            later_ok &= matches!(within(b.write_data_frame(1, Bytes::from(vec![0x60 + k; 20]))).await, Some(Ok(())));
+        }
+        let ba: Vec<Vec<usize>> = batches(&wire_a).iter().map(|x| x.0.clone()).collect();
+        let bb: Vec<Vec<usize>> = batches(&wire_b).iter().map(|x| x.0.clone()).collect();
+        out.obs = format!("a={:?} b={:?}", ba, bb);
+        if !ok || !later_ok || a.is_closed() || b.is_closed() {
+            out.viol("C19:session-disturbed", format!("writes ok {ok}/{later_ok}, closed {} {}", a.is_closed(), b.is_closed()));
+            return out;
+        }
+        // a narrow transport splits writes: compare the bytes per packet (flush-delimited), not the write calls
+        let total = |v: &Vec<usize>| v.iter().sum::<usize>();
+        let last2 = |v: &Vec<Vec<usize>>| v.iter().rev().take(2).map(total).collect::<Vec<_>>();
+        if last2(&ba) != vec![200, 200] {
+            out.viol("C19:session-does-not-use-its-pushed-scheme", format!("session A was pushed the 200-byte scheme (session B, in the same process, the 300-byte one at about the same time); A's packets after the pushes: {:?} bytes (all packets {:?})", last2(&ba), ba.iter().map(total).collect::<Vec<_>>()));
+        }
+        if last2(&bb) != vec![300, 300] {
+            out.viol("C19:session-does-not-use-its-pushed-scheme", format!("session B was pushed the 300-byte scheme (session A the 200-byte one at about the same time); B's packets after the pushes: {:?} bytes", last2(&bb)));
+        }
+        out
+    })
+}
+
+fn two_push_items(tier: Tier) -> Vec<crate::dxrun::DxItem> {
+    let mut v = vec![];
+    for narrow in [true, false] {
+        let mut it = crate::dxrun::DxItem::new(json!({"part": "two sessions pushed at the same time", "writer_of_A_on_a_narrow_transport": narrow}), make_two_pushes(narrow), if tier.is_thorough() { 3 } else { 2 });
+        it.exec.draw = DrawPolicy::Min;
+        it.exec.long_yield = 3;
+        it.exec.quiesce = true;
+        v.push(it);
+    }
+    v
+}
+
 fn expected_size(s: &Option<String>) -> Option<usize> {
     // None = built-in default scheme: not one of the fixed-size schemes
     s.as_ref().and_then(|t| if t == &scheme(200) || t == &scheme_b_retyped() || t == &real_server_text('P') { Some(200) } else if t == &real_server_text('p') { Some(300) } else if t == &scheme(300) { Some(300) } else if t == &scheme(150) { Some(150) } else { None })
@@ -694,6 +772,8 @@ pub fn run(tier: Tier) -> i32 {
     }
     session_grid(&mut rep, thorough);
     server_reads_settings(&mut rep);
+    // last, and one execution at a time: these executions replace the PROCESS-wide default scheme
+    crate::dxrun::run_items_workers(&mut rep, "C19", tier, two_push_items(tier), crate::dxrun::DxOpts { time_cap: Duration::from_secs(if thorough { 600 } else { 40 }), det_replays: 2, max_violations: 3, vacuity_check: false }, 1);
     rep.sections.insert("bx".into(), json!({"histories": n, "depth": depth, "alphabet": "T (touch default) | Z (client constructed with a custom scheme), B b C D (session + push of scheme B / B retyped (same lines, other text) / C / the built-in default text), X (session + unparsable push), P p (real client session against a REAL server session whose scheme text ends in whitespace), R q r d (client request against a scripted TLS server using B / B retyped / C / the built-in default)"}));
     rep.finish("BX over process histories, one fresh child process each: every history of length <= d over {touch default, session with a push of scheme B / C / an unparsable scheme followed by shaped writes, client request through the real Client against a scripted TLS server}; write sizes after a push must be those of the pushed scheme, sessions created afterwards must start with it and announce its md5, an unparsable push changes nothing; plus the real server's reading of 24 spellings of the settings frame (push exactly when the announced md5 differs); plus an exhaustive per-session grid (stop of the announced scheme x stop of the pushed scheme x packets sent before the push) comparing every packet's write sizes with the reference shaper; non-trivial = distinct history / grid case")
 }
